@@ -366,5 +366,6 @@ func vfP2PModelName() string {
 
 func TestVerifC07P2P(t *testing.T) { vfXSearch(t, "C07", "p2p", vfP2PModelName()) }
 func TestVerifC03P2P(t *testing.T) { vfXSearch(t, "C03", "p2p", vfP2PModelName()) }
+func TestVerifC02P2P(t *testing.T) { vfXSearch(t, "C02", "p2p", vfP2PModelName()) }
 func TestVerifC09P2P(t *testing.T) { vfXSearch(t, "C09", "p2p", vfP2PModelName()) }
 func TestVerifC08P2P(t *testing.T) { vfXSearch(t, "C08", "p2p", vfP2PModelName()) }
